@@ -1,0 +1,12 @@
+//go:build verif
+
+package pipeline
+
+import "github.com/buildkite/go-pipeline/internal/env"
+
+// VerifEnvFromMap gives the verification harness in /verif (a different module, which
+// cannot import internal packages) the library's own InterpolationEnv implementation.
+// It is compiled only with the build tag "verif".
+func VerifEnvFromMap(caseSensitive bool, m map[string]string) InterpolationEnv {
+	return env.New(env.CaseSensitive(caseSensitive), env.FromMap(m))
+}
